@@ -13,6 +13,10 @@ from C15 import ORDER_SENSITIVE, DEP_ORDER
 LEVEL = "exploration"
 G = "grammar %s;\n"
 DEGENERATE = {
+    # more than 64 states in a row (the automata library's queue): an error, never a stack trace
+    "chain70": "grammar t;\nAS = /a{70}/;\nstart = AS;\n",
+    "keyword70": "grammar t;\nstart = \"" + "k" * 70 + "\";\n",
+    "three-chains": "grammar t;\nAS = /a{1,16}/;\nBS = /b{1,32}/;\nCS = /c{1,17}/;\nstart = AS | BS | CS;\n",
     "unit-cycle": G % "uc" + 'start = start | x "b";\nx = "b" x | "b";\n',
     "non-generating": G % "ng" + 'start = x x | start "a";\nx = start start | start x;\n',
     "eps-cycle": G % "ec" + 'start = start start | "a" | ;\n',
@@ -113,7 +117,8 @@ def run(ck):
     specs.update(DEP_ORDER)
     items = []
     names = sorted(specs)
-    mutated = names if not quick else names[::3]
+    # single-byte mutations are applied to a fixed handful in the quick tier (the pool keeps growing for other checks)
+    mutated = names if not quick else [n for n in ("kw", "eolcomment", "quotes", "number", "nested", "ops", "mixedws", "undef3", "lalr-conflicts", "dup-handles") if n in names]
     for n in names:
         items.append({"id": n, "kind": "spec" if n in mutated else "rawspec", "text": specs[n]})
     for n, t in DEGENERATE.items():
@@ -126,7 +131,7 @@ def run(ck):
     ck.run_harness(["ebnf-print", "-in", "tla/gen_specs.ndjson", "-out", "tla/gen_texts.ndjson"])
     pool_texts = vp.read_ndjson(os.path.join(ck.work, "tla", "gen_texts.ndjson"))
     if quick:
-        pool_texts = rnd.sample(pool_texts, min(len(pool_texts), 5000))
+        pool_texts = rnd.sample(pool_texts, min(len(pool_texts), 1500))
     items += [{"id": "pool-%d" % i, "kind": "rawspec", "text": t["text"]} for i, t in enumerate(pool_texts)]
     pats = list(SPECIAL_PATTERNS)
     for l in (1, 2, 3):
